@@ -33,11 +33,21 @@
 (*   |a e^{j30} + b e^{-j90} + c e^{j150}|^2 = a^2+b^2+c^2 - ab - bc - ca   *)
 (* because every pair of directions is 120 degrees apart (cos = -1/2).     *)
 (*                                                                         *)
-(* The module adds one variable (pick: the constraint-id request chosen    *)
-(* for this behaviour), the actions ExtendPick/ClosePick and the terminal  *)
-(* action FinishA                                                          *)
-(* which replaces AcnSim!Finish: it emits the behaviour followed by one    *)
-(* record with the value of every analysis function.                       *)
+(* constraint_currents returns complex phasors or their magnitudes          *)
+(* depending on return_magnitudes; the specification fixes the squared     *)
+(* magnitude (both settings are compared as magnitudes).                   *)
+(*                                                                         *)
+(* Magnitudes (32-bit TLC integers; pilots <= 32 A, VL = 3120, T = 5):     *)
+(* dE <= 32*240*5 = 38400, RateN <= 32*VL*T = 499200, AggPowN <=           *)
+(* 6*240*499200 < 7.2e8, RateQ <= 320, |Grp| <= 2*4*320, ConSq and         *)
+(* LinBound^2 < 6e7, cost sums < 2e8.                                      *)
+(*                                                                         *)
+(* The module adds one variable (pick: the constraint-id request the       *)
+(* caller builds), the actions ExtendPick / ClosePick (pc "Done" ->        *)
+(* "Picked") and the terminal action FinishA, which replaces               *)
+(* AcnSim!Finish: it emits the behaviour followed by one record with the   *)
+(* value of every analysis function.  NextA is AcnSim's next-state         *)
+(* relation with these actions instead of Finish.                          *)
 (***************************************************************************)
 EXTENDS AcnSim
 
@@ -188,6 +198,7 @@ Unbalance(ids) == UnbalanceM(ids, CurrentMatrix)
 DatetimeOffsets == [k \in 1..t |-> (k - 1) * T]
 
 \* ---- energy_cost, demand_charge ----------------------------------------------------
+\* (both are computed from aggregate_power in the code; A_Energy: AggPowN(k) = VL * PeriodEnergy(k))
 \* energy_cost = sum_k price_k * power_k * T/60 = sum_k Price[k+1] * PeriodEnergy(k) / (100*60000)  [$]
 EnergyCostN == SumSet([k \in 0..H |-> Price[k + 1] * PeriodEnergy(k)], Periods)
 \* demand_charge = rate * max_k power_k = DemandRate * max_k PeriodEnergy(k) / (T*1000)             [$]
@@ -248,6 +259,8 @@ FinishA ==
 \* AcnSim's actions (all but Finish) leave pick alone.  One definition per action so that
 \* TLC's coverage report names them.
 AddSessionA == (\E v \in SessVals : AddSession(v)) /\ UNCHANGED pick
+\* (generation only: MinSess > 0 steers the random walk to scenarios with several sessions; a scenario
+\* that cannot take another session may always start)
 StartA == (Len(sess) >= MinSess \/ ~ENABLED AddSessionA) /\ (\E R \in RecompSets, mr \in MRSet : Start(R, mr)) /\ UNCHANGED pick
 LoopA == Loop /\ UNCHANGED pick
 ProcA == Proc /\ UNCHANGED pick
@@ -319,6 +332,11 @@ A_Phasor ==
         \A sq \in {ConSq(c, k)}, lb \in {LinBound(c, k)}, ln \in {ConLin(c, k)} :
            /\ 0 <= sq
            /\ sq <= lb * lb                                            \* triangle inequality
+           \* the same phasor in rectangular coordinates: e^{j30} = (r/2, 1/2), e^{-j90} = (0, -1),
+           \* e^{j150} = (-r/2, 1/2) with r = sqrt(3), so  4|I|^2 = 3 (a - g)^2 + (a + g - 2b)^2
+           /\ \A a \in {Grp(c, k, 30)}, b \in {Grp(c, k, -90)}, g \in {Grp(c, k, 150)} :
+                 /\ 4 * sq = 3 * (a - g) * (a - g) + (a + g - 2 * b) * (a + g - 2 * b)
+                 /\ (a = b /\ b = g) => sq = 0                         \* balanced three-phase load
            /\ Collinear(c) => sq = ln * ln
            \* a collinear row of ones is the plain sum of its stations' rates ...
            /\ (Collinear(c) /\ UnitRow(c)) =>
@@ -364,6 +382,12 @@ A_Nema ==
         \A sq \in {PhaseSq(NemaIds[n])} : \A k \in Periods :
             \A f \in {NemaFrac(NemaIds[n], k)}, m \in {PhaseMag(NemaIds[n], k)} :
                /\ 0 <= f[1] /\ f[1] <= 2 * f[2]
+               \* anchor values of the NEMA formula: one loaded phase -> 200 %; two equal, one idle -> 50 %
+               /\ Cardinality({j \in 1..3 : m[j] > 0}) = 1 => f[1] = 2 * f[2]
+               /\ (\E x \in 1..3 : m[x] = 0 /\ \A y, z \in (1..3) \ {x} : m[y] = m[z] /\ m[y] > 0) => 2 * f[1] = f[2]
+               \* (max - mean) / mean, cross-multiplied with mean = sum/3
+               /\ \A mx \in {m[1], m[2], m[3]} : (\A j \in 1..3 : m[j] <= mx) =>
+                      f[1] * (m[1] + m[2] + m[3]) = (3 * mx - (m[1] + m[2] + m[3])) * f[2]
                /\ (f[2] > 0 /\ f[1] = 0) <=> (m[1] = m[2] /\ m[2] = m[3] /\ m[1] > 0)
                /\ \A j \in 1..3 : sq[j][k + 1] = m[j] * m[j]
                /\ \A n2 \in 1..Len(NemaIds) :
